@@ -203,11 +203,15 @@ def r21b(ctx, R):
     if okm:
         cst = C.stmt_of(cons[0])
         var = cst.targets[0].id if isinstance(cst, ast.Assign) else None
-        est = C.stmt_of(exc[0])
+        # the add runs under the literal "not exceeds_capacity(<that
+        # candidate>)" - whichever way the skip is spelled
+        neg = False
+        for e, pol in C.conds(C.stmt_of(adds[0]), m.node, implicit=True):
+            if e is exc[0] and not pol:
+                neg = True
         okm = var is not None and src(exc[0].args[0]) == var and src(
-            adds[0].args[0]) == var and isinstance(est, ast.If) and \
-            isinstance(est.body[0], ast.Continue) and gm.dominates(
-                est, C.stmt_of(adds[0])) and gm.dominates(cst, est)
+            adds[0].args[0]) == var and neg and gm.dominates(
+                cst, C.stmt_of(exc[0]))
     R.ob('R2.1', '_merge_candidates:filters-merged-candidate', okm,
          'a consolidated candidate is added to the result only after '
          'exceeds_capacity() returned False for it',
